@@ -380,6 +380,18 @@ func (p *Program) paramAlwaysPositive(par *ssa.Parameter) (bool, string) {
 // immediately. It is a progress event of loop l only if its error is tested (directly or as the
 // loop-carried copy) and the failing side cannot come back to the loop header.
 func readFailureLeavesLoop(call *ssa.Call, l *Loop) bool {
+	// blocks of the loop that wait by themselves: a failing read that goes through one of
+	// them before the next iteration does not spin
+	waits := map[*ssa.BasicBlock]bool{}
+	for b := range l.Blocks {
+		for _, ins := range b.Instrs {
+			if c2, ok := ins.(*ssa.Call); ok {
+				if n := calleeName(c2.Common()); n == "time.Sleep" {
+					waits[b] = true
+				}
+			}
+		}
+	}
 	var errV ssa.Value
 	if tup, ok := call.Type().(*types.Tuple); ok {
 		if call.Referrers() != nil {
@@ -438,7 +450,7 @@ func readFailureLeavesLoop(call *ssa.Call, l *Loop) bool {
 			for len(st) > 0 {
 				x := st[len(st)-1]
 				st = st[:len(st)-1]
-				if seen[x] || !l.Blocks[x] {
+				if seen[x] || !l.Blocks[x] || waits[x] {
 					continue
 				}
 				seen[x] = true
